@@ -1,14 +1,624 @@
-//! (under construction)
+//! C17 — invalid arguments produce errors, not panics.
+//!
+//! Simulated part (the clauses that live on the `Source` / `Fill` seam): a
+//! Byzantine peer hands over, at read k of an otherwise ordinary stream or at
+//! one fill of a buffer that already has a history, (a) a sample outside the
+//! declared width, (b) more samples than the buffer holds, (c) bytes with a
+//! bytes-per-sample that disagrees with the declared width (or is not a
+//! bytes-per-sample at all: 0, 5, 8), or asks for a frame number >= 2^31.
+//! Oracle: the call returns an error — no panic, no `Ok`.
+//!
+//! Enumerated part (`Grid`, auxiliary — plain boundary-value enumeration, not
+//! simulation; see DESIGN.md): the format / block-size arguments of the entry
+//! points and constructors on the property's grid of boundary and wrap-around
+//! values (0, min-1, max+1, 2^8+k, 2^16+k, 2^32+k, usize::MAX).
+
+use crate::pan;
+use crate::rng::{fnv, mix, Rng};
+use crate::simsource::{to_le_bytes, SimSource};
+use crate::workload::{fresh_small, gen_out_of_range, CfgSpec, Fault, Workload, BITS};
 use crate::{Summary, Violation};
+use flacenc::component::{Stream, StreamInfo};
+use flacenc::source::{Context, Fill, FrameBuf, MemSource};
+use serde::{Deserialize, Serialize};
+use serde_json::json;
+use std::collections::BTreeSet;
 
-pub fn run(_ctx: &crate::RunCtx) -> (Summary, Vec<Violation>) {
-    (Summary::new("under construction"), vec![])
+#[derive(Serialize, Deserialize, Clone, Debug, PartialEq)]
+#[serde(tag = "bad")]
+pub enum BadFill {
+    /// `extra` scalars more than the buffer holds (capacity x channels), as ints (bps 0) or bytes
+    Oversize { extra: usize, bps: usize },
+    /// a byte fill of `len` inter-channel samples at a bytes-per-sample that disagrees with the declared width
+    WrongBps { bps: usize, len: usize },
 }
 
-pub fn exec(_case: &serde_json::Value) -> Result<Option<Violation>, String> {
-    Err("not implemented".into())
+#[derive(Serialize, Deserialize, Clone, Debug, PartialEq)]
+#[serde(tag = "bad")]
+pub enum BadFrame {
+    OutOfRange { ch: usize, idx: usize, value: i32, as_bytes: bool },
+    FrameNumber { n: u64 },
 }
 
-pub fn minimise(case: &serde_json::Value, _class: &str, _site: &str) -> serde_json::Value {
-    case.clone()
+#[derive(Serialize, Deserialize, Clone, Debug, PartialEq)]
+#[serde(tag = "call")]
+pub enum GridCall {
+    /// `StreamInfo::new` and `Stream::new`
+    StreamNew { rate: u64, channels: u64, bits: u64 },
+    /// `FrameBuf::with_size`
+    FrameBufWithSize { channels: u64, size: u64 },
+    /// `encode_with_fixed_block_size` (single-thread) with a source that declares this format and this block size
+    Encode { rate: u64, channels: u64, bits: u64, block: u64 },
+}
+
+#[derive(Serialize, Deserialize, Clone, Debug, PartialEq)]
+#[serde(tag = "kind")]
+pub enum Case {
+    ByzStream {
+        w: Workload,
+    },
+    ByzFill {
+        /// 0 = `FrameBuf`, 1 = `Context`, 2 = `(FrameBuf, Context)`
+        target: u8,
+        channels: usize,
+        bits: usize,
+        capacity: usize,
+        /// a valid fill of this many samples first (the buffer has a history)
+        pre_fill: Option<usize>,
+        bad: BadFill,
+    },
+    ByzFrame {
+        channels: usize,
+        bits: usize,
+        capacity: usize,
+        fill: usize,
+        bad: BadFrame,
+    },
+    Grid {
+        call: GridCall,
+    },
+}
+
+fn viol(class: &str, site: &str, detail: String, case: &Case) -> Violation {
+    Violation {
+        class: class.into(),
+        site: site.into(),
+        message: String::new(),
+        detail,
+        case: serde_json::to_value(case).unwrap(),
+    }
+}
+
+fn panic_viol(c: &pan::Caught, what: &str, case: &Case) -> Violation {
+    Violation {
+        class: "panic".into(),
+        site: c.site.clone(),
+        message: c.message.clone(),
+        detail: format!("{what} panicked: {}", pan::norm_msg(&c.message)),
+        case: serde_json::to_value(case).unwrap(),
+    }
+}
+
+pub struct Stats {
+    pub ops: u64,
+    pub fired: std::collections::BTreeMap<String, u64>,
+    pub not_fired: u64,
+}
+
+fn quiet_block(bits: usize, n: usize, seed: u64) -> Vec<i32> {
+    let mut r = Rng::new(seed);
+    let hi: i64 = (1i64 << (bits - 1)) - 1;
+    (0..n).map(|_| r.range(-(hi.min(100)), hi.min(100)) as i32).collect()
+}
+
+fn exec_byz_stream(case: &Case, w: &Workload, stats: &mut Stats) -> Option<Violation> {
+    let res = pan::catch(|| {
+        let mut src = SimSource::new(w);
+        let cfg = w.cfg.build(false, None, w.block);
+        let r = flacenc::encode_with_fixed_block_size(&cfg, &mut src, w.block).map(|s| s.frame_count()).map_err(|e| format!("{e}"));
+        (r, src.fired.clone(), src.reads)
+    });
+    match res {
+        Err(c) => Some(panic_viol(&c, &format!("encode_with_fixed_block_size with a Byzantine source ({:?})", w.faults), case)),
+        Ok((r, fired, reads)) => {
+            stats.ops += reads as u64;
+            if fired.is_empty() {
+                stats.not_fired += 1;
+                return None;
+            }
+            for f in &fired {
+                *stats.fired.entry((*f).to_owned()).or_default() += 1;
+            }
+            match r {
+                Err(_) => None,
+                Ok(frames) => Some(viol(
+                    "byzantine_accepted",
+                    fired[0],
+                    format!("the source misbehaved ({:?}) but the entry point returned Ok with {frames} frame(s)", w.faults),
+                    case,
+                )),
+            }
+        }
+    }
+}
+
+fn bad_fill_on<F: Fill>(dest: &mut F, channels: usize, bits: usize, capacity: usize, bad: &BadFill) -> Result<(), String> {
+    let good = (bits + 7) / 8;
+    match bad {
+        BadFill::Oversize { extra, bps } => {
+            let block = quiet_block(bits, capacity * channels + extra, 7);
+            if *bps == 0 {
+                dest.fill_interleaved(&block).map_err(|e| format!("{e}"))
+            } else {
+                let mut bb = vec![];
+                to_le_bytes(&block, good, &mut bb);
+                dest.fill_le_bytes(&bb, good).map_err(|e| format!("{e}"))
+            }
+        }
+        BadFill::WrongBps { bps, len } => {
+            let block = quiet_block(bits, len * channels, 9);
+            // the same audio serialised at the wrong width (bps 0: any bytes)
+            let mut bb = vec![];
+            for v in &block {
+                let b = i64::from(*v).to_le_bytes();
+                bb.extend_from_slice(&b[..(*bps).clamp(1, 8)]);
+            }
+            dest.fill_le_bytes(&bb, *bps).map_err(|e| format!("{e}"))
+        }
+    }
+}
+
+#[allow(clippy::too_many_arguments)]
+fn exec_byz_fill(case: &Case, target: u8, channels: usize, bits: usize, capacity: usize, pre_fill: Option<usize>, bad: &BadFill, stats: &mut Stats) -> Result<Option<Violation>, String> {
+    let mut fb = FrameBuf::with_size(channels, capacity).map_err(|e| format!("HARNESS: framebuf: {e}"))?;
+    let mut ctx = Context::new(bits, channels);
+    if let Some(n) = pre_fill {
+        let block = quiet_block(bits, n.min(capacity) * channels, 3);
+        let mut t = (&mut fb, &mut ctx);
+        t.fill_interleaved(&block).map_err(|e| format!("HARNESS: valid pre-fill rejected: {e}"))?;
+    }
+    let tname = ["FrameBuf", "Context", "(FrameBuf, Context)"][target as usize % 3];
+    let res = pan::catch(|| match target % 3 {
+        0 => bad_fill_on(&mut fb, channels, bits, capacity, bad),
+        1 => bad_fill_on(&mut ctx, channels, bits, capacity, bad),
+        _ => {
+            let mut t = (&mut fb, &mut ctx);
+            bad_fill_on(&mut t, channels, bits, capacity, bad)
+        }
+    });
+    stats.ops += 1;
+    let kind = match bad {
+        BadFill::Oversize { .. } => "oversize_fill",
+        BadFill::WrongBps { .. } => "wrong_bytes_per_sample",
+    };
+    *stats.fired.entry(kind.into()).or_default() += 1;
+    Ok(match res {
+        Err(c) => Some(panic_viol(&c, &format!("{tname}: {bad:?}"), case)),
+        Ok(Err(_)) => None,
+        Ok(Ok(())) => Some(viol(
+            "byzantine_accepted",
+            kind,
+            format!("{tname} (channels {channels}, {bits} bits, capacity {capacity}) accepted {bad:?}; filled_size() is now {}", fb.filled_size()),
+            case,
+        )),
+    })
+}
+
+fn exec_byz_frame(case: &Case, channels: usize, bits: usize, capacity: usize, fill: usize, bad: &BadFrame, stats: &mut Stats) -> Result<Option<Violation>, String> {
+    let si = StreamInfo::new(44100, channels, bits).map_err(|e| format!("HARNESS: stream info: {e}"))?;
+    let mut fb = FrameBuf::with_size(channels, capacity).map_err(|e| format!("HARNESS: framebuf: {e}"))?;
+    let n = fill.clamp(1, capacity);
+    let mut block = quiet_block(bits, n * channels, 5);
+    let mut frame_number = 0usize;
+    let mut as_bytes = false;
+    match bad {
+        BadFrame::OutOfRange { ch, idx, value, as_bytes: ab } => {
+            block[(idx % n) * channels + ch % channels] = *value;
+            as_bytes = *ab;
+        }
+        BadFrame::FrameNumber { n } => frame_number = usize::try_from(*n).unwrap_or(usize::MAX),
+    }
+    // hand the block over the way a source would; a value that does not fit the byte width goes as ints
+    let good = (bits + 7) / 8;
+    let fits = |v: i32| good >= 4 || (i64::from(v) >= -(1i64 << (8 * good - 1)) && i64::from(v) < (1i64 << (8 * good - 1)));
+    let r = if as_bytes && block.iter().all(|v| fits(*v)) {
+        let mut bb = vec![];
+        to_le_bytes(&block, good, &mut bb);
+        fb.fill_le_bytes(&bb, good)
+    } else {
+        fb.fill_interleaved(&block)
+    };
+    r.map_err(|e| format!("HARNESS: valid-size fill rejected: {e}"))?;
+    let cfg = CfgSpec::default_spec().build(false, None, capacity);
+    let res = pan::catch(|| flacenc::encode_fixed_size_frame(&cfg, &fb, frame_number, &si).map(|_| ()).map_err(|e| format!("{e}")));
+    stats.ops += 2;
+    let kind = match bad {
+        BadFrame::OutOfRange { .. } => "out_of_range",
+        BadFrame::FrameNumber { .. } => "frame_number",
+    };
+    *stats.fired.entry(kind.into()).or_default() += 1;
+    Ok(match res {
+        Err(c) => Some(panic_viol(&c, &format!("encode_fixed_size_frame with {bad:?}"), case)),
+        Ok(Err(_)) => None,
+        Ok(Ok(())) => Some(viol("byzantine_accepted", kind, format!("encode_fixed_size_frame ({bits} bits) returned Ok for {bad:?}"), case)),
+    })
+}
+
+struct FormatSource {
+    rate: usize,
+    channels: usize,
+    bits: usize,
+    inner: MemSource,
+}
+
+impl flacenc::source::Source for FormatSource {
+    fn channels(&self) -> usize {
+        self.channels
+    }
+    fn bits_per_sample(&self) -> usize {
+        self.bits
+    }
+    fn sample_rate(&self) -> usize {
+        self.rate
+    }
+    fn read_samples<F: Fill>(&mut self, block_size: usize, dest: &mut F) -> Result<usize, flacenc::error::SourceError> {
+        self.inner.read_samples(block_size.min(4096), dest)
+    }
+}
+
+fn us(x: u64) -> usize {
+    usize::try_from(x).unwrap_or(usize::MAX)
+}
+
+/// Is this argument combination outside the supported domain, beyond doubt? (Widths 4n+1 up to 25 are
+/// accepted by the library's shared width check for side channels; they are not judged.)
+fn grid_invalid(call: &GridCall) -> bool {
+    let bad_fmt = |rate: u64, ch: u64, bits: u64| rate > 96_000 || ch == 0 || ch > 8 || !(8..=25).contains(&bits) || !matches!(bits % 4, 0 | 1);
+    match call {
+        GridCall::StreamNew { rate, channels, bits } => bad_fmt(*rate, *channels, *bits),
+        GridCall::FrameBufWithSize { channels, size } => *channels == 0 || *channels > 8 || !(32..=32767).contains(size),
+        GridCall::Encode { rate, channels, bits, block } => bad_fmt(*rate, *channels, *bits) || !(32..=32767).contains(block),
+    }
+}
+
+fn exec_grid(case: &Case, call: &GridCall, stats: &mut Stats) -> Option<Violation> {
+    if !grid_invalid(call) {
+        return None;
+    }
+    stats.ops += 1;
+    *stats.fired.entry("invalid_argument".into()).or_default() += 1;
+    let res = pan::catch(|| match call {
+        GridCall::StreamNew { rate, channels, bits } => {
+            let a = StreamInfo::new(us(*rate), us(*channels), us(*bits)).is_ok();
+            let b = Stream::new(us(*rate), us(*channels), us(*bits)).is_ok();
+            a || b
+        }
+        GridCall::FrameBufWithSize { channels, size } => FrameBuf::with_size(us(*channels), us(*size)).is_ok(),
+        GridCall::Encode { rate, channels, bits, block } => {
+            let ch_data = us(*channels).clamp(1, 8);
+            let src = FormatSource {
+                rate: us(*rate),
+                channels: us(*channels),
+                bits: us(*bits),
+                inner: MemSource::from_samples(&vec![0i32; 64 * ch_data], ch_data, 16, 44100),
+            };
+            let cfg = CfgSpec::default_spec().build(false, None, 4096);
+            flacenc::encode_with_fixed_block_size(&cfg, src, us(*block)).is_ok()
+        }
+    });
+    match res {
+        Err(c) => Some(panic_viol(&c, &format!("{call:?}"), case)),
+        Ok(false) => None,
+        Ok(true) => Some(viol("invalid_argument_accepted", "grid", format!("{call:?} is outside the supported domain but was accepted"), case)),
+    }
+}
+
+pub fn exec_case(case: &Case, stats: &mut Stats) -> Result<Option<Violation>, String> {
+    match case {
+        Case::ByzStream { w } => Ok(exec_byz_stream(case, w, stats)),
+        Case::ByzFill {
+            target,
+            channels,
+            bits,
+            capacity,
+            pre_fill,
+            bad,
+        } => exec_byz_fill(case, *target, *channels, *bits, *capacity, *pre_fill, bad, stats),
+        Case::ByzFrame {
+            channels,
+            bits,
+            capacity,
+            fill,
+            bad,
+        } => exec_byz_frame(case, *channels, *bits, *capacity, *fill, bad, stats),
+        Case::Grid { call } => Ok(exec_grid(case, call, stats)),
+    }
+}
+
+const CAPS: &[usize] = &[32, 33, 48, 64, 65, 128, 255, 256, 257, 576];
+
+fn boundary(r: &mut Rng, lo: u64, hi: u64) -> u64 {
+    // the property's grid: 0, min-1, min, max, max+1, 2^8+k, 2^16+k, 2^32+k, usize::MAX (k = a valid value)
+    let k = lo + r.below((hi - lo + 1) as usize) as u64;
+    match r.below(10) {
+        0 => 0,
+        1 => lo.saturating_sub(1),
+        2 => lo,
+        3 => hi,
+        4 => hi + 1,
+        5 => (1 << 8) + k,
+        6 => (1 << 16) + k,
+        7 => (1u64 << 32) + k,
+        8 => u64::MAX,
+        _ => k,
+    }
+}
+
+fn gen_grid(r: &mut Rng) -> GridCall {
+    // one argument from the grid, the others valid (sometimes two)
+    let mut rate = *r.pick(&[1u64, 8000, 44100, 96000]);
+    let mut channels = 1 + r.below(8) as u64;
+    let mut bits = *r.pick(&[8u64, 12, 16, 20, 24]);
+    let mut block = *r.pick(&[32u64, 64, 4096, 32767]);
+    let which = r.below(4);
+    let n = if r.chance(0.15) { 2 } else { 1 };
+    for j in 0..n {
+        match (which + j) % 4 {
+            0 => rate = boundary(r, 1, 96_000),
+            1 => channels = boundary(r, 1, 8),
+            2 => bits = match r.below(3) {
+                0 => *r.pick(&[0u64, 1, 4, 7, 10, 11, 14, 15, 18, 19, 22, 23, 26, 27, 28, 31, 32, 33, 64]),
+                _ => boundary(r, 8, 24),
+            },
+            _ => block = boundary(r, 32, 32767),
+        }
+    }
+    match r.below(3) {
+        0 => GridCall::StreamNew { rate, channels, bits },
+        1 => GridCall::FrameBufWithSize { channels, size: block },
+        _ => GridCall::Encode { rate, channels, bits, block },
+    }
+}
+
+pub fn gen_case(seed: u64, index: u64) -> Case {
+    let mut r = Rng::new(mix(seed, 0xC17_0000 + index));
+    match r.below(10) {
+        0..=3 => {
+            let mut w = fresh_small(&mut r);
+            w.faults.clear();
+            if w.plan_reads().is_empty() {
+                w.nfull = 1;
+            }
+            let nreads = w.plan_reads().len();
+            let k = match r.below(4) {
+                0 => 0,
+                1 => nreads - 1,
+                _ => r.below(nreads),
+            };
+            let f = match r.below(3) {
+                0 => gen_out_of_range(&mut r, &w, k),
+                1 => Fault::Oversize {
+                    k,
+                    extra: *r.pick(&[1usize, 2, 5, w.block, w.block * (w.channels - 1).max(1)]),
+                },
+                _ => {
+                    let good = w.bytes_per_sample();
+                    let mut bps = 1 + r.below(4);
+                    if bps == good {
+                        bps = if good == 4 { 1 } else { good + 1 };
+                    }
+                    Fault::WrongBps { k, bps }
+                }
+            };
+            w.faults.push(f);
+            Case::ByzStream { w }
+        }
+        4..=6 => {
+            let channels = if r.chance(0.3) { 1 } else { 1 + r.below(8) };
+            let bits = *r.pick(BITS);
+            let capacity = *r.pick(CAPS);
+            let good = (bits + 7) / 8;
+            let target = r.below(3) as u8;
+            let bad = if target == 1 || r.chance(0.4) {
+                // a bytes-per-sample that disagrees with the declared width (the buffer alone declares none: only 0 / >4 there)
+                let pool: Vec<usize> = if target == 0 { vec![0, 5, 8] } else { (0..=8usize).filter(|b| *b != good && *b != 6 && *b != 7).collect() };
+                BadFill::WrongBps {
+                    bps: *r.pick(&pool),
+                    len: *r.pick(&[1usize, capacity / 2, capacity]),
+                }
+            } else {
+                BadFill::Oversize {
+                    extra: *r.pick(&[1usize, channels, 2 * channels, capacity * channels, 5]),
+                    bps: if r.chance(0.5) { 0 } else { good },
+                }
+            };
+            // an oversize fill means nothing to a Context alone (it holds no samples)
+            let target = if matches!(bad, BadFill::Oversize { .. }) && target == 1 { 2 } else { target };
+            Case::ByzFill {
+                target,
+                channels,
+                bits,
+                capacity,
+                pre_fill: if r.chance(0.5) { Some(*r.pick(&[capacity, capacity - 1, 1])) } else { None },
+                bad,
+            }
+        }
+        7 => {
+            let channels = 1 + r.below(8);
+            let bits = *r.pick(BITS);
+            let capacity = *r.pick(CAPS);
+            let half: i64 = 1i64 << (bits - 1);
+            let bad = if r.chance(0.7) {
+                let value = match r.below(9) {
+                    0 => half,
+                    1 => -half - 1,
+                    2 => half + 1 + r.below(1000) as i64,
+                    3 => -half - 2 - r.below(1000) as i64,
+                    4 => i64::from(i32::MAX),
+                    5 => i64::from(i32::MIN),
+                    6 => (1i64 << 16) + r.below(100) as i64 + if bits > 16 { 1i64 << 24 } else { 0 },
+                    7 => half * 2,
+                    _ => -half * 2,
+                };
+                BadFrame::OutOfRange {
+                    ch: r.below(channels),
+                    idx: r.below(capacity),
+                    value: value.clamp(i64::from(i32::MIN), i64::from(i32::MAX)) as i32,
+                    as_bytes: r.chance(0.5),
+                }
+            } else {
+                BadFrame::FrameNumber {
+                    n: *r.pick(&[1u64 << 31, (1 << 31) + 1, 1 << 32, (1 << 32) + 5, u64::MAX, (1u64 << 40) + 3]),
+                }
+            };
+            Case::ByzFrame {
+                channels,
+                bits,
+                capacity,
+                fill: *r.pick(&[capacity, capacity, 1, capacity / 2]),
+                bad,
+            }
+        }
+        _ => Case::Grid { call: gen_grid(&mut r) },
+    }
+}
+
+fn case_kind(c: &Case) -> &'static str {
+    match c {
+        Case::ByzStream { .. } => "byz_stream",
+        Case::ByzFill { .. } => "byz_fill",
+        Case::ByzFrame { .. } => "byz_frame",
+        Case::Grid { .. } => "grid",
+    }
+}
+
+pub fn run(ctx: &crate::RunCtx) -> (Summary, Vec<Violation>) {
+    let mut sum = Summary::new(
+        "a case = one misbehaviour of the peer on the Source/Fill seam: (byz_stream) an ordinary small stream (single-thread; the multi-thread \
+         slice is parsim/C17P) whose source, at read k, hands over a sample outside the declared width, fills more samples than requested \
+         (by 1, 2, 5, a block, blocks x channels), or fills bytes at a bytes-per-sample that disagrees with the width; (byz_fill) the same on one \
+         FrameBuf / Context / (FrameBuf, Context), fresh or already filled, incl. bytes-per-sample 0, 5, 8; (byz_frame) encode_fixed_size_frame on a \
+         buffer holding one out-of-range sample (delivered as ints or bytes) or with a frame number >= 2^31; (grid, auxiliary enumeration, not \
+         simulation) format and block-size arguments of StreamInfo::new / Stream::new / FrameBuf::with_size / encode_with_fixed_block_size from \
+         {0, min-1, max+1, 2^8+k, 2^16+k, 2^32+k, usize::MAX}. Oracle: Err - no panic, no Ok. distinct = distinct case hashes; non-trivial = the \
+         misbehaviour actually fired (an invalid argument was actually passed).",
+    );
+    let mut viols = vec![];
+    let mut distinct = BTreeSet::new();
+    let mut stats = Stats {
+        ops: 0,
+        fired: std::collections::BTreeMap::new(),
+        not_fired: 0,
+    };
+    for i in 0..ctx.count {
+        if i % ctx.nchild != ctx.child {
+            continue;
+        }
+        let case = gen_case(ctx.seed, i);
+        sum.cases += 1;
+        *sum.ops_hist.entry(case_kind(&case).into()).or_default() += 1;
+        let before: u64 = stats.fired.values().sum();
+        match exec_case(&case, &mut stats) {
+            Ok(Some(v)) => {
+                *sum.classes.entry(v.class.clone()).or_default() += 1;
+                viols.push(v);
+            }
+            Ok(None) => {}
+            Err(e) => crate::harness_error(&e),
+        }
+        let fired_now = stats.fired.values().sum::<u64>() > before;
+        if fired_now && distinct.insert(fnv(&serde_json::to_string(&case).unwrap())) {
+            sum.distinct_nontrivial += 1;
+        }
+        if sum.samples.len() < 4 && i >= 4 * ctx.nchild && Some(case_kind(&case)) != sum.samples.last().and_then(|s: &serde_json::Value| s.get("kind")).and_then(|k| k.as_str()).map(|k| match k {
+            "ByzStream" => "byz_stream",
+            "ByzFill" => "byz_fill",
+            "ByzFrame" => "byz_frame",
+            _ => "grid",
+        }) {
+            let mut v = serde_json::to_value(&case).unwrap();
+            v.as_object_mut().unwrap().insert("index".into(), json!(i));
+            sum.samples.push(v);
+        }
+    }
+    sum.seam_ops = stats.ops;
+    sum.fault_kinds = stats.fired;
+    sum.outcomes.insert("fault_not_reached".into(), stats.not_fired);
+    (sum, viols)
+}
+
+pub fn exec(case: &serde_json::Value) -> Result<Option<Violation>, String> {
+    let case: Case = serde_json::from_value(case.clone()).map_err(|e| format!("bad C17 case: {e}"))?;
+    let mut stats = Stats {
+        ops: 0,
+        fired: std::collections::BTreeMap::new(),
+        not_fired: 0,
+    };
+    exec_case(&case, &mut stats)
+}
+
+/// Shrinks Byzantine streams (earlier fault, fewer blocks, one channel, cheap configuration) and fills (no pre-fill).
+pub fn minimise(case: &serde_json::Value, class: &str, site: &str) -> serde_json::Value {
+    let Ok(mut c) = serde_json::from_value::<Case>(case.clone()) else {
+        return case.clone();
+    };
+    let mut stats = Stats {
+        ops: 0,
+        fired: std::collections::BTreeMap::new(),
+        not_fired: 0,
+    };
+    let mut same = |c: &Case| matches!(exec_case(c, &mut stats), Ok(Some(v)) if v.class == class && v.site == site);
+    let mut progress = true;
+    while progress {
+        progress = false;
+        let mut cands: Vec<Case> = vec![];
+        match &c {
+            Case::ByzStream { w } => {
+                let mut push = |f: &dyn Fn(&mut Workload)| {
+                    let mut n = w.clone();
+                    f(&mut n);
+                    n.residue = n.residue.min(n.block - 1);
+                    if n != *w && !n.plan_reads().is_empty() {
+                        cands.push(Case::ByzStream { w: n });
+                    }
+                };
+                push(&|n| {
+                    for f in &mut n.faults {
+                        f.set_k(0);
+                    }
+                });
+                push(&|n| n.nfull = n.nfull.min(1));
+                push(&|n| n.residue = 0);
+                push(&|n| {
+                    n.channels = 1;
+                    n.sig_kinds.truncate(1);
+                    for f in &mut n.faults {
+                        if let Fault::OutOfRange { ch, .. } = f {
+                            *ch = 0;
+                        }
+                    }
+                });
+                push(&|n| n.cfg = CfgSpec { use_lpc: false, ..CfgSpec::default_spec() });
+                push(&|n| n.delivery = 0);
+                push(&|n| n.short_reads = false);
+                push(&|n| n.block = 32);
+            }
+            Case::ByzFill { pre_fill: Some(_), .. } => {
+                let mut n = c.clone();
+                if let Case::ByzFill { pre_fill, .. } = &mut n {
+                    *pre_fill = None;
+                }
+                cands.push(n);
+            }
+            _ => {}
+        }
+        for n in cands {
+            if same(&n) {
+                c = n;
+                progress = true;
+                break;
+            }
+        }
+    }
+    serde_json::to_value(c).unwrap()
 }
